@@ -36,6 +36,10 @@ func (ft *FT) assign(lhs ast.Expr, v Val, define bool) {
 					vr.T = v.T
 					ft.changed = true
 				}
+				if lostRef(v) && !vr.GotLost {
+					vr.GotLost = true
+					ft.changed = true
+				}
 				if vr.Obj != nil {
 					ft.store(rs(*vr.Obj), "*", v.Pts)
 				} else if vr.Pts.addAll(v.Pts) {
@@ -153,6 +157,12 @@ func (ft *FT) valueSpec(vs *ast.ValueSpec, global bool) {
 			continue
 		}
 		ft.declare(n, v.T, v.Pts)
+		if len(vs.Values) == 0 && n.Obj != nil {
+			if vr := ft.vars[n.Obj]; vr != nil && !vr.ZeroDecl {
+				vr.ZeroDecl = true
+				ft.changed = true
+			}
+		}
 	}
 }
 
